@@ -3,7 +3,10 @@
 #pragma once
 #include "common.hpp"
 #include "nmtools/array/eval.hpp"
+#include "nmtools/utility/data.hpp"
 namespace view = nm::view;
+// pre-fill the whole logical content of a result array (any buffer kind) through the named fill helper
+template <typename A, typename T> static inline void fill_buf(A& a, const T* d){ fill_n(nm::data(a), d, (size_t)nm::size(a)); }
 template <typename S> static inline bool idx_inside(const size_t* idx, size_t n, const S& shape){
   for (size_t i=0;i<n;i++) if (idx[i] >= (size_t)nm::at(shape,i)) return false; return true; }
 // returns 0 lazy Nothing (eager must then be Nothing too, else 5), 4 eager Nothing, 2 index length != dim, 3 index outside the lazy shape, 1 ok
